@@ -6,6 +6,7 @@ import (
 	"io"
 	"testing"
 
+	saml2 "github.com/russellhaering/gosaml2"
 	"pgregory.net/rapid"
 
 	h "verif/harness"
@@ -39,3 +40,56 @@ func checkC01(c AttackCase) h.Outcome {
 
 func TestC01(t *testing.T)        { h.RunProp(t, "C01", genC01, checkC01) }
 func TestC01_Replay(t *testing.T) { h.RunReplay(t, "C01", checkC01) }
+
+// C01Seq: ONE long-lived service provider (same clock object) whose certificate store is replaced between
+// 2..3 attacker cases — key roll-over, per-tenant swap. The provenance oracle of every step uses the store
+// in force at that step: a message signed with a key that has just been retired must no longer be accepted.
+type C01Seq struct {
+	Steps []AttackCase `json:"steps"`
+}
+
+func genC01Seq(t *rapid.T) C01Seq {
+	var q C01Seq
+	n := rapid.IntRange(2, 3).Draw(t, "steps")
+	for i := 0; i < n; i++ {
+		c := genAttackCase(t, attackOpts{maxOps: 2, opKinds: []string{"edit-text", "strip-sig", "dup-el", "splice", "forge-assertion", "resign", "comment-trick"}})
+		if i > 0 {
+			// same SP apart from the store
+			keep := c.SP.Store
+			c.SP = q.Steps[0].SP
+			c.SP.Store = keep
+			if err := c.build(); err != nil {
+				t.Fatalf("harness: %v", err)
+			}
+		}
+		q.Steps = append(q.Steps, c)
+	}
+	return q
+}
+
+func checkC01Seq(q C01Seq) h.Outcome {
+	o := h.Outcome{NonTrivial: true, Classes: []string{"seq"}}
+	sp := q.Steps[0].SP.Build()
+	for i := range q.Steps {
+		c := q.Steps[i]
+		sp.IDPCertificateStore = h.Store(c.SP.Store)
+		c.spFn = func() *saml2.SAMLServiceProvider { return sp }
+		so := h.Outcome{}
+		v := c.judgeSSO(&so)
+		if v == nil {
+			v = c.judgeLogout(&so)
+		}
+		o.Classes = append(o.Classes, so.Classes...)
+		if v != nil {
+			v.Sig = "reused-sp/" + v.Sig
+			v.Detail = "step " + string(rune('1'+i)) + " on a long-lived service provider whose store was replaced: " + v.Detail
+			o.Violation = v
+			return o
+		}
+	}
+	o.Classes = dedup(o.Classes)
+	return o
+}
+
+func TestC01_PSeq(t *testing.T)      { h.RunProp(t, "C01.seq", genC01Seq, checkC01Seq) }
+func TestC01_ReplaySeq(t *testing.T) { h.RunReplay(t, "C01.seq", checkC01Seq) }
